@@ -1,0 +1,11 @@
+//go:build !verif
+
+package dict
+
+import "github.com/karino2/folang/pkg/frt"
+
+// Verification hooks (build tag "verif"); without the tag they do nothing.
+
+func verifKVs[K comparable, V any](d Dict[K, V]) ([]frt.Tuple2[K, V], bool) { return nil, false }
+func verifKeys[K comparable, V any](d Dict[K, V]) ([]K, bool)               { return nil, false }
+func verifValues[K comparable, V any](d Dict[K, V]) ([]V, bool)             { return nil, false }
